@@ -41,13 +41,13 @@ theorem Post.fault {F : Fault → Prop} {α : Type} (c : Cfg) (f : Fault) (s : S
 /-- the parts of a handle `adfFileReadNextBlock` never changes -/
 def Kept (h h' : FileH) : Prop :=
   h'.modeWrite = h.modeWrite ∧ h'.modeRead = h.modeRead ∧ h'.hdr = h.hdr ∧ h'.changed = h.changed ∧
-  h'.posInDataBlk = h.posInDataBlk
+  h'.posInDataBlk = h.posInDataBlk ∧ h'.vol = h.vol
 
 def SameCur (h h' : FileH) : Prop :=
   h'.nDataBlock = h.nDataBlock ∧ h'.curData = h.curData ∧ h'.curDataPtr = h.curDataPtr ∧ h'.pos = h.pos ∧ h'.vol = h.vol ∧
   Kept h h'
 
-theorem SameCur.rfl' (h : FileH) : SameCur h h := ⟨rfl, rfl, rfl, rfl, rfl, rfl, rfl, rfl, rfl, rfl⟩
+theorem SameCur.rfl' (h : FileH) : SameCur h h := ⟨rfl, rfl, rfl, rfl, rfl, rfl, rfl, rfl, rfl, rfl, rfl⟩
 
 /-- `adfFileReadNextBlock`: (1) never touches the disk; (2) on failure the cursor does not move: block index, buffer,
     buffer's block number and position are what they were; (3) on success the buffer is byte-for-byte the content
@@ -57,7 +57,8 @@ theorem fileReadNextBlock_spec (c : Cfg) (h : FileH) (s : St) :
       s'.disk = s.disk ∧ Kept h r.2 ∧
       (r.1 ≠ rcOK → r.2.nDataBlock = h.nDataBlock ∧ r.2.curData = h.curData ∧ r.2.curDataPtr = h.curDataPtr ∧ r.2.pos = h.pos) ∧
       (r.1 = rcOK → r.2.nDataBlock = h.nDataBlock + 1 ∧ r.2.pos = h.pos ∧
-          r.2.curData = padTo ((s.sector (vsect c h.vol r.2.curDataPtr)).take 512) 512)) := by
+          r.2.curData = padTo ((s.sector (vsect c h.vol r.2.curDataPtr)).take 512) 512 ∧
+          sectLt2 r.2.curDataPtr = false)) := by
   unfold fileReadNextBlock
   apply Post.bind; apply Post.getVolCfg
   apply Post.bind
@@ -103,23 +104,25 @@ theorem fileReadNextBlock_spec (c : Cfg) (h : FileH) (s : St) :
   · -- phase 2: read it
     rintro ⟨rc, h', nSect, fromExt⟩ s' ⟨hd, hsc⟩
     simp only at hsc ⊢
-    obtain ⟨e1, e2, e3, e4, e5, k1, k2, k3, k4, k5⟩ := hsc
+    obtain ⟨e1, e2, e3, e4, e5, k1, k2, k3, k4, k5, k6⟩ := hsc
     by_cases hrc : rc ≠ rcOK
-    · rw [if_pos hrc]; exact Post.pure _ _ _ _ ⟨hd, ⟨k1, k2, k3, k4, k5⟩, fun _ => ⟨e1, e2, e3, e4⟩, fun h => absurd h hrc⟩
+    · rw [if_pos hrc]; exact Post.pure _ _ _ _ ⟨hd, ⟨k1, k2, k3, k4, k5, k6⟩, fun _ => ⟨e1, e2, e3, e4⟩, fun h => absurd h hrc⟩
     · rw [if_neg hrc]
       by_cases hs : sectLt2 nSect = true
-      · rw [if_pos hs]; exact Post.pure _ _ _ _ ⟨hd, ⟨k1, k2, k3, k4, k5⟩, fun _ => ⟨e1, e2, e3, e4⟩, fun h => absurd h rcError_ne_ok⟩
+      · rw [if_pos hs]; exact Post.pure _ _ _ _ ⟨hd, ⟨k1, k2, k3, k4, k5, k6⟩, fun _ => ⟨e1, e2, e3, e4⟩, fun h => absurd h rcError_ne_ok⟩
       · rw [if_neg hs]
         apply Post.bind; apply readDataBlock_spec
         intro rc2 data s'' _ hd2 hok
         simp only
         by_cases hrc2 : rc2 ≠ rcOK
-        · rw [if_pos hrc2]; exact Post.pure _ _ _ _ ⟨by rw [hd2, hd], ⟨k1, k2, k3, k4, k5⟩, fun _ => ⟨e1, e2, e3, e4⟩, fun h => absurd h hrc2⟩
+        · rw [if_pos hrc2]; exact Post.pure _ _ _ _ ⟨by rw [hd2, hd], ⟨k1, k2, k3, k4, k5, k6⟩, fun _ => ⟨e1, e2, e3, e4⟩, fun h => absurd h hrc2⟩
         · rw [if_neg hrc2]
           have hok2 : rc2 = rcOK := by simpa using hrc2
           apply Post.pure
-          refine ⟨by rw [hd2, hd], ?_, fun h => absurd rfl h, fun _ => ⟨?_, ?_, ?_⟩⟩
-          · unfold Kept; split <;> simp [k1, k2, k3, k4, k5]
+          refine ⟨by rw [hd2, hd], ?_, fun h => absurd rfl h, fun _ => ⟨?_, ?_, ?_, ?_⟩⟩
+          rotate_right
+          · split <;> (simp only []; simpa using hs)
+          · unfold Kept; split <;> simp [k1, k2, k3, k4, k5, k6]
           · split <;> simp [e1]
           · split <;> simp [e4]
           · have := (hok hok2).1
